@@ -1498,25 +1498,17 @@ class TT():
 
             result = torchtt._extras.reshape(self, shape_new, eps, rmax)
         else:
-            for core in self.cores:
-                if int(math.log(core.shape[1], mode_size)) > 1:
-                    Nnew = [core.shape[0]*mode_size]+[mode_size] * \
-                        (int(
-                            math.log(core.shape[1], mode_size))-2)+[core.shape[2]*mode_size]
-                    try:
-                        core = tn.reshape(core, Nnew)
-                    except:
-                        raise ShapeMismatch('Reshaping error: check if the dimensions care powers of the desired mode size:\r\ncore size '+str(
-                            list(core.shape))+' cannot be reshaped to '+str(Nnew))
-                    cores, _ = to_tt(core, Nnew, eps, rmax, is_sparse=False)
-                    cores_new.append(tn.reshape(
-                        cores[0], [-1, mode_size, cores[0].shape[-1]]))
-                    cores_new += cores[1:-1]
-                    cores_new.append(tn.reshape(
-                        cores[-1], [cores[-1].shape[0], mode_size, -1]))
+            # split every mode through reshape(), which orthogonalises the cores first: truncating each core on its
+            # own is only accurate relative to that core, not to the tensor, when the cores are badly balanced.
+            shape_new = []
+            for n in self.__N:
+                if int(math.log(n, mode_size)) > 1:
+                    if n != mode_size**int(math.log(n, mode_size)):
+                        raise ShapeMismatch('Reshaping error: check if the dimensions care powers of the desired mode size:\r\nmode size '+str(n)+' cannot be reshaped.')
+                    shape_new += [mode_size]*int(math.log(n, mode_size))
                 else:
-                    cores_new.append(core)
-            result = TT(cores_new)
+                    shape_new.append(n)
+            result = torchtt._extras.reshape(self, shape_new, eps, rmax)
 
         return result
 
